@@ -62,8 +62,8 @@ mod verif_lex {
         window(&mut buf, multi, p);
         let s = as_str(&buf);
         let r = count_leading_whitespace(s);
-        kani::cover!(r == N, "all blank");
-        kani::cover!(r > 0 && r < N, "blank prefix then content");
+        kani::cover!(r > 0, "a blank prefix");
+        kani::cover!(r < N, "content after the blanks");
         assert!(r == blank_run(&buf, 0), "OB lexscan/blank_prefix: count_leading_whitespace = maximal prefix of bytes <= 0x20 and U+3000");
         assert!(s.is_char_boundary(r), "OB lexscan/blank_prefix_boundary: the blank prefix ends on a character boundary");
     }
@@ -225,7 +225,7 @@ mod verif_lex {
     }
 
     #[kani::proof]
-    #[kani::unwind(4)]
+    #[kani::unwind(7)]
     fn lextable_to_final_token() {
         let ws: usize = kani::any();
         kani::assume(ws <= u32::MAX as usize);
